@@ -278,11 +278,35 @@ class Run:
         self.transitions += max(r.states - 0, 0)
         return r
 
+    def rp_table_leg(self, name, mc_spec, mc_cfg, domain, ops_file, workers=8, timeout=3000):
+        """RP leg for table-style domains: the inputs TLC enumerates (and checks the specification on) are given
+        to the real crate by `lc3v replay <domain>` and the records validated by TV_Tables."""
+        ops = os.path.join(SPEC, ops_file)
+        r = self.mc_leg(name + "_mc", mc_spec, mc_cfg, env={"OPS": ops}, workers=workers, timeout=timeout)
+        hist = os.path.join(self.work, name + ".hist")
+        nh = 0
+        with open(hist, "w") as f:
+            for ln in r.prints:
+                m = re.match(r'^<<"HIST", <<(.*)>>>>\s*$', ln)
+                if m:
+                    f.write("[" + m.group(1) + "]\n")
+                    nh += 1
+        if nh == 0:
+            raise ToolError("leg %s: TLC printed no behaviour" % name)
+        out = os.path.join(self.work, name + ".ndjson")
+        lc3v(["replay", domain, "hist=" + hist, "ops=" + ops], out, self.seed, self.tier)
+        res = self.table_leg(name, ["replay", domain], workers=workers, timeout=timeout, path=out)
+        self.legs[-1].update({"kind": "RP (TLC-enumerated inputs given to the implementation, then TV)", "behaviours": nh})
+        return res
+
     def table_leg(self, name, emit_args, spec="TV_Tables", cfg="TV_Tables.cfg",
-                  idx_var="i", workers=4, nontrivial=None, exhaustive=False, timeout=1800):
+                  idx_var="i", workers=4, nontrivial=None, exhaustive=False, timeout=1800, path=None):
         """TV leg over independent call records: emit, check with TLC, report."""
         t0 = time.time()
-        path, n = self.emit(name, ["emit"] + emit_args)
+        if path is None:
+            path, n = self.emit(name, ["emit"] + emit_args)
+        else:
+            n = sum(1 for _ in open(path, "rb"))
         r = self.tlc(name, spec, cfg, env={"TRACE": path}, workers=workers, timeout=timeout)
         bad = sorted({int(v["states"][-1][idx_var]) for v in r.violations
                       if v["states"] and idx_var in v["states"][-1] and v["inv"] != "TableConf"})
@@ -899,6 +923,8 @@ def c04(run):
 def c25(run):
     run.mc_leg("mc_sourceinfo", "MC_SourceInfo", "MC_SourceInfo6.cfg" if run.tier == "thorough" else "MC_SourceInfo.cfg", workers=16)
     run.table_leg("srcinfo", ["srcinfo"], workers=16)
+    # RP: every string MC_SourceInfo checks (up to 5 symbols over letter, space, TAB, CR, LF, NBSP) through the real SourceInfo
+    run.rp_table_leg("rp_srcinfo", "MC_SourceInfo", "MC_SourceInfoRP.cfg", "srcinfo", "MC_SourceInfo_ops.ndjson", workers=16)
     return run.finish(
         rule="MC: for every string of up to 5 (thorough: 6) symbols over {letter, space, tab, CR, LF, NBSP} and every index up "
              "to length+3 the operators of spec/SourceInfo.tla satisfy C25 stated in its own words (line count = newlines+1; raw "
